@@ -42,3 +42,23 @@ def loop_tuple_index(name, fi):
                 if isinstance(t, ast.Name) and t.id == name:
                     return i, d
     return None
+
+
+def deep(e, fi, depth=5, stop=()):
+    """copy of expression e with every single-assignment local it mentions replaced by its defining expression
+    (recursively): the expression as a function of parameters, loop variables and multiply-assigned names only"""
+    if e is None or depth <= 0:
+        return e
+
+    class R(ast.NodeTransformer):
+        def visit_Name(self, n):
+            if isinstance(n.ctx, ast.Load) and n.id not in fi.params and n.id not in stop:
+                v = resolve(n, fi)
+                if v is not n and not isinstance(v, (ast.Lambda, ast.ListComp, ast.DictComp, ast.SetComp, ast.GeneratorExp, ast.Await, ast.Yield)):
+                    return deep(ast.parse(ast.unparse(v), mode="eval").body, fi, depth - 1, stop)
+            return n
+
+        def visit_Lambda(self, n):
+            return n
+
+    return R().visit(ast.parse(ast.unparse(e), mode="eval").body)
